@@ -109,23 +109,28 @@ def cli_discovery(R):
     # -x plumbing: what -x says on the command line is what applies, also when it says "nothing" (the only way to switch
     # the default excludes off) and also next to an exclude setting in a .bandit file
     shutil.rmtree(d, ignore_errors=True)
-    for sub in ("pkg", ".tox/env", "tests", "build"):
+    DEC = "cafe\u0301"          # a decomposed name (e + combining acute), as some file systems return it
+    for sub in ("pkg", ".tox/env", "tests", "build", "~", DEC):
         os.makedirs(os.path.join(d, "src", sub))
         open(os.path.join(d, "src", sub, "m.py"), "w").write("assert a\n")
     open(os.path.join(d, "src", "top.py"), "w").write("assert a\n")
     # the target is spelled "src" and directory excludes are spelled from the working directory ("src/pkg"), the one spelling
     # under which directory excludes work (the known finding exclude-depends-on-spelling is about the others)
-    every = {"src/top.py", "src/pkg/m.py", "src/.tox/env/m.py", "src/tests/m.py", "src/build/m.py"}
+    every = {"src/top.py", "src/pkg/m.py", "src/.tox/env/m.py", "src/tests/m.py", "src/build/m.py", "src/~/m.py", "src/%s/m.py" % DEC}
     cases = [([], None, every - {"src/.tox/env/m.py"}), (["-x", ""], None, every), (["--exclude="], None, every), (["-x", "src/pkg"], None, every - {"src/pkg/m.py"}),
              ([], "exclude = src/tests", every - {"src/tests/m.py"}), (["-x", ""], "exclude = src/tests", every), (["--exclude="], "exclude = src/tests,src/build", every),
              (["-x", "src/build"], "exclude = src/tests", every - {"src/build/m.py"}),
-             (["-x", ".tox,src/tests"], "exclude = src/pkg", every - {"src/.tox/env/m.py", "src/tests/m.py"})]
+             (["-x", ".tox,src/tests"], "exclude = src/pkg", every - {"src/.tox/env/m.py", "src/tests/m.py"}),
+             # entries that are not paths of this machine's home directory, and names exactly as the file system spells them
+             ([], "exclude = ~/", every - {"src/~/m.py"}), (["-x", "~/"], None, every - {"src/~/m.py"}), (["-x", "src/~"], "exclude = src/pkg", every - {"src/~/m.py"}),
+             (["-x", "src/" + DEC], None, every - {"src/%s/m.py" % DEC}), ([], "exclude = src/%s" % DEC, every - {"src/%s/m.py" % DEC}),
+             (["-x", DEC], None, every - {"src/%s/m.py" % DEC})]
     for argv, ini, want in cases:
         inif = os.path.join(d, ".bandit")
         if os.path.exists(inif):
             os.remove(inif)
         if ini:
-            open(inif, "w").write("[bandit]\n" + ini + "\n")
+            open(inif, "w", encoding="utf-8").write("[bandit]\n" + ini + "\n")
         r = climain.run_main(["-q", "-f", "json", "--exit-zero", "-r", "src"] + (["--ini", ".bandit"] if ini else []) + argv, cwd=d)
         R.case(("cli-exclude", tuple(argv), ini), nontrivial=True, sample={"argv": argv, "ini": ini, "exit": r["exit"]})
         R.count("cli-exclude")
